@@ -48,7 +48,7 @@ class SimLock:
         if self.owner is None:
             raise RuntimeError("release unlocked lock")
         self.owner = None
-        k.yield_point("release:" + self.name)
+        k.release_point(self.name)
 
     def locked(self):
         return self.owner is not None
@@ -112,7 +112,9 @@ class SimRLock(SimLock):
         self.count -= 1
         if self.count == 0:
             self.owner = None
-        k.yield_point("release:" + self.name)
+            k.release_point(self.name)
+        else:
+            k.yield_point("release:" + self.name)
 
     __enter__ = acquire
 
